@@ -138,6 +138,11 @@ def affines(draw, family: Optional[str] = None, rotated: Optional[bool] = None, 
         t = st.one_of(st.just(0.0), st.floats(-1e3, 1e3), st.floats(-max_t, max_t))
         tx, ty = draw(t), draw(t)
     rot = draw(st.booleans()) if rotated is None else rotated
+    if rot and family == "general" and max(abs(sx), abs(sy)) > 1e3 * min(abs(sx), abs(sy)):
+        # rotated/sheared pixels a million times longer than wide make the 2x2 matrix so ill-conditioned that the
+        # library's own documented tolerances (1e-8 px, isclose) are below float rounding of the inverse: keep the
+        # anisotropy of rotated grids below 1e3 (axis-aligned grids keep the full range)
+        sy = math.copysign(abs(sx) * draw(st.sampled_from([1.0, 2.0, 0.5, 7.0, 0.3])), sy)
     klass = []
     if sgnx < 0:
         klass.append("mirror_x")
